@@ -16,6 +16,10 @@ REPO = os.environ.get('VERIF_REPO_ROOT', '/repo')
 
 
 def apply_edit(root, m):
+    if 'patch' in m:
+        pf = os.path.join(VERIF, m['patch'])
+        r = subprocess.run(['patch', '-p1', '-s', '-d', root, '-i', pf], capture_output=True, text=True)
+        return r.returncode == 0
     p = os.path.join(root, m['file'])
     s = open(p).read()
     edits = m['edits'] if 'edits' in m else [m]
